@@ -721,8 +721,9 @@ func init() {
 		Run: func(c *Ctx) {
 			c.SessionLifecycle("C17")
 			c.ParticipantsAsSent("C17")
+			c.ReceiverFront("C17")
 		},
-		Explanation: "The session table is a typestate machine decided structurally: every access and every lookup happens with the table mutex write-held and the mutex is released on every return; prepare inserts only below the lookup's not-found edge and leaves a found session untouched; execute, contribute, commit and abort use the session, change the table or report success only below lookup success (the lookup's errors are exactly {nil, not found}); commit succeeds only past both per-participant completeness tests and after deleting the session, abort after deleting it, and the lookup deletes only past the timeout comparison; nothing else writes the table. See DESIGN.md §5 C17.",
+		Explanation: "The session table is a typestate machine decided structurally: every access and every lookup happens with the table mutex write-held and the mutex is released on every return; prepare inserts only below the lookup's not-found edge and leaves a found session untouched; execute, contribute, commit and abort use the session, change the table or report success only below lookup success (the lookup's errors are exactly {nil, not found}); commit succeeds only past both per-participant completeness tests and after deleting the session, abort after deleting it, and the lookup deletes only past the timeout comparison; nothing else writes the table; the gRPC receiver in front answers success only past the nil-error edge of the process service's call and keeps no state of its own. See DESIGN.md §5 C17.",
 		Trusted:     append([]string{"peers are cooperating (len == participants means the listed participants)", "wall clock"}, commonTrusted...),
 	})
 }
